@@ -495,7 +495,9 @@ GRAMMAR = {
 
 RAW = {1: b"\x00" * 64, 2: bytes(range(128, 256)), 3: b"\r\n", 4: b"A" * 4096, 5: b"\xff\xff\xff\xff\x7f\xff\xff\xff" * 4,
        # terminal escape sequences that never end: longer than a line editor's input buffer (256 bytes), with and without a line end
-       6: b"\x1b" + b"1" * 300, 7: b"\x1b[" + b"9;" * 200 + b"\r\n"}
+       6: b"\x1b" + b"1" * 300, 7: b"\x1b[" + b"9;" * 200 + b"\r\n",
+       # a line of nothing but blanks and tabs (not empty: parsers that split a line into fields get no field at all)
+       8: b" \t  \r\n"}
 # the classes the dialogue model (MC_Dialogue) draws from; 6 and 7 are added to every service's core set by life.py
 RAW_MODEL = range(1, 6)
 
